@@ -12,7 +12,8 @@ package c12
 //      at the first delivery of a class (round,kind) a message of that class ("on time"); at a quiescent
 //      point (nothing in flight) a message of any class of a round entered so far (late / silent phase),
 //   T  fire a pending timeout although deliveries are pending (or another than the lowest one),
-//   L  deliver one withheld message / LA all withheld messages of one receiver (late delivery).
+//   L  deliver one withheld message / LA all withheld messages of one receiver (late delivery),
+//   HS withhold a validator's ProcessStart (messages reaching it meanwhile are buffered) / LS start it late.
 // B, T, L are offered at class boundaries only (the class of the default action differs from the
 // class of the previous default action); W at every delivery. Every execution with <= k deviations
 // is run; states are cached on (machine states, network state, remaining budget).
@@ -41,6 +42,8 @@ type gstate struct {
 	wh   []uint32
 	tmo  [nC]uint32 // pending timeouts, bit round*3+step
 	last int16
+	unst uint8 // validators whose ProcessStart is still due (default: all start first)
+	late uint8 // validators whose start was withheld (messages delivered meanwhile are buffered by the machine)
 }
 
 func (g *gstate) clone() gstate {
@@ -58,7 +61,12 @@ const (
 	oByz
 	oLate
 	oLateAll
+	oStart
+	oHoldStart
+	oLateStart
 )
+
+const clsStart = 300
 
 type opt struct {
 	t    uint8
@@ -81,6 +89,12 @@ func (c *cfg) label(o opt) string {
 		return fmt.Sprintf("LA >%d", c.correct[o.slot])
 	case oFire:
 		return fmt.Sprintf("T %d %d.%s", c.correct[o.slot], o.tm/3, types.Step(o.tm%3))
+	case oStart:
+		return fmt.Sprintf("start %d", c.correct[o.slot])
+	case oHoldStart:
+		return fmt.Sprintf("HS %d", c.correct[o.slot])
+	case oLateStart:
+		return fmt.Sprintf("LS %d", c.correct[o.slot])
 	case oByz:
 		var to []string
 		for s := 0; s < nC; s++ {
@@ -170,7 +184,7 @@ func (s *searcher) visit(g *gstate, budget int) bool {
 	for _, f := range g.wh {
 		add(uint64(f))
 	}
-	add(uint64(uint16(g.last)) | 4<<40)
+	add(uint64(uint16(g.last)) | uint64(g.unst)<<16 | uint64(g.late)<<24 | 4<<40)
 	key := [2]uint64{h1, h2}
 	sh := &s.shards[h1>>56]
 	sh.mu.Lock()
@@ -262,12 +276,11 @@ func insertSorted(a []uint32, x uint32) []uint32 {
 func removeAt(a []uint32, i int) []uint32 { return append(a[:i], a[i+1:]...) }
 
 func (s *searcher) start() gstate {
-	g := gstate{last: -1}
+	// last = clsStart: the start phase is not a boundary (no Byzantine traffic before anybody started, unless a
+	// start is withheld, after which the next class boundary offers everything as usual)
+	g := gstate{last: clsStart, unst: 1<<nC - 1}
 	for i := 0; i < nC; i++ {
 		g.nd[i] = s.c.roots[i]
-	}
-	for i := 0; i < nC; i++ {
-		s.step(&g, i, inStart, nil)
 	}
 	return g
 }
@@ -340,6 +353,9 @@ func dropTo(a []uint32, slot int) []uint32 {
 }
 
 func (s *searcher) dflt(g *gstate) (opt, int16) {
+	if g.unst != 0 {
+		return opt{t: oStart, slot: int8(bits.TrailingZeros8(g.unst))}, clsStart
+	}
 	if len(g.infl) > 0 {
 		f := g.infl[0]
 		m := f >> 2
@@ -363,6 +379,9 @@ func (s *searcher) devs(g *gstate, D opt, cls int16, buf []opt) []opt {
 	out := buf[:0]
 	if D.t == oDeliver {
 		out = append(out, opt{t: oWithhold, fl: D.fl})
+	}
+	if D.t == oStart {
+		out = append(out, opt{t: oHoldStart, slot: D.slot})
 	}
 	if cls == g.last {
 		return out
@@ -403,6 +422,11 @@ func (s *searcher) devs(g *gstate, D opt, cls int16, buf []opt) []opt {
 			out = append(out, opt{t: oFire, slot: int8(i), tm: t})
 		}
 	}
+	for i := 0; i < nC; i++ {
+		if g.late&(1<<uint(i)) != 0 {
+			out = append(out, opt{t: oLateStart, slot: int8(i)})
+		}
+	}
 	var cnt [nC]int
 	for _, f := range g.wh {
 		out = append(out, opt{t: oLate, fl: f})
@@ -432,6 +456,17 @@ func (s *searcher) apply(g *gstate, o opt, cls int16, trace []opt) {
 			g.last = cls
 		}
 		s.step(g, int(o.slot), inTmo|uint32(o.tm), trace)
+	case oStart:
+		g.unst &^= 1 << uint(o.slot)
+		g.last = cls
+		s.step(g, int(o.slot), inStart, trace)
+	case oHoldStart:
+		g.unst &^= 1 << uint(o.slot)
+		g.late |= 1 << uint(o.slot)
+		g.last = cls
+	case oLateStart:
+		g.late &^= 1 << uint(o.slot)
+		s.step(g, int(o.slot), inStart, trace)
 	case oByz:
 		in := inMsg | o.m.pack()
 		for i := 0; i < nC; i++ {
@@ -492,7 +527,7 @@ func (s *searcher) dfs(g gstate, budget int, trace []opt, split int) {
 				tr := append(trace[:len(trace):len(trace)], o)
 				s.devsTaken.Add(1)
 				dcls := int16(-1)
-				if o.t == oWithhold {
+				if o.t == oWithhold || o.t == oHoldStart {
 					dcls = cls
 				}
 				s.apply(&g2, o, dcls, tr)
@@ -594,7 +629,7 @@ func (s *searcher) script(items []string) (gstate, []opt, bool) {
 			for _, o := range buf {
 				if s.c.label(o) == items[i] {
 					dcls := int16(-1)
-					if o.t == oWithhold {
+					if o.t == oWithhold || o.t == oHoldStart {
 						dcls = cls
 					}
 					trace = append(trace, o)
